@@ -154,8 +154,9 @@ class Obligation:
         self.result = None
 
     def ident(self):
-        return '%s %s(%s) [%s]' % (self.contract.family, self.fn['name'], ', '.join(p['ctype'] for p in self.fn['params']),
-                                   self.fn.get('owner') or '-')
+        part = getattr(self.contract, 'part', None)
+        return '%s %s(%s) [%s]%s' % (self.contract.family, self.fn['name'], ', '.join(p['ctype'] for p in self.fn['params']),
+                                     self.fn.get('owner') or '-', '' if part is None else ' lane-part %d' % part)
 
 
 SPEC_INCLUDES = ['spec_int.h', 'spec_float.h']
@@ -252,10 +253,11 @@ def discharge(ob_text, cname, replace, workdir, flags, timeout_fast, timeout_slo
     base = ['cbmc', os.path.join(workdir, 'b.gb'), '--json-ui', '--trace', '--object-bits', '12']
     if unwind:
         base += ['--unwind', str(unwind), '--unwinding-assertions']
-    attempts = []
-    if 'mul' not in flags and 'kissat' not in flags:
-        attempts.append(('minisat', [], timeout_fast))
-    attempts.append(('kissat', ['--external-sat-solver', 'kissat'], timeout_slow))
+    # cadical (linked into cbmc, no CNF file) is the deciding back end; kissat is the fall-back for slow queries.
+    # minisat is not used: it cannot match even identical multiplier circuits through SSA copies.
+    attempts = [('cadical', ['--sat-solver', 'cadical'], timeout_fast if 'mul' not in flags else timeout_slow)]
+    if 'mul' not in flags:
+        attempts.append(('kissat', ['--external-sat-solver', 'kissat'], timeout_slow))
     for name, extra, to in attempts:
         rc, out, err, dt = _run(base + extra, workdir, to, env, mem_gb=12)
         res['solver_s'] += dt
@@ -341,8 +343,8 @@ def trim_trace(trace, n=40):
 
 
 def run_obligations(obs, scratch, tier, progress=True):
-    tf = 20 if tier == 'quick' else 60
-    ts = 240 if tier == 'quick' else 1800
+    tf = int(os.environ.get('VERIF_TFAST', 30 if tier == 'quick' else 90))
+    ts = int(os.environ.get('VERIF_TSLOW', 240 if tier == 'quick' else 1800))
     jobs = []
     for ob in obs:
         c = ob.contract
